@@ -144,7 +144,7 @@ def r03_2(ctx):
     ctx.sample({"stuff(7e 11 41)": run1(ctx, px, q, None, {"data": bytes([0x7E, 0x11, 0x41])}).value.hex()})
 
 
-@rule("R03.3", ["C03", "C02"], "T-FUN", floor=512)
+@rule("R03.3", ["C03", "C02", "C04"], "T-FUN", floor=512)
 def r03_3(ctx):
     """_unstuff_bytes as a two-state transducer: in the normal state 7D enters the escaped state and any other
     byte is copied; in the escaped state c yields c^20 if that is a reserved value and a ParsingError otherwise
@@ -201,7 +201,7 @@ def _spec_unstuff(seq):
     return bytes(out)
 
 
-@rule("R03.4", ["C03", "C02"], "T-FUN", floor=256)
+@rule("R03.4", ["C03", "C02", "C04"], "T-FUN", floor=256)
 def r03_4(ctx):
     """Frame-type classification: for each of the 256 control bytes parse_frame hands the bytes to the
     from_bytes of exactly the specified class (0xxxxxxx DATA, 100xxxxx ACK, 101xxxxx NAK, C0 RST, C1 RSTACK,
@@ -331,7 +331,7 @@ def r03_5(ctx):
     ctx.sample({"DATA(2,1,7,'')": spec_data(2, 1, 7, b"").hex(), "cases": n})
 
 
-@rule("R03.6", ["C03", "C02"], "T-GATE", floor=8)
+@rule("R03.6", ["C03", "C02", "C04"], "T-GATE", floor=8)
 def r03_6(ctx):
     """CRC: append_crc(x) = x ++ BE16(crc_hqx(x, 0xFFFF)); _unwrap returns (data[0], data[1:-2]) only on the path
     where the 2-byte big-endian crc_hqx(data[:-2], 0xFFFF) was compared equal to data[-2:] as a whole (or both of
